@@ -111,8 +111,21 @@ def make_model(crate, parse_bounds, counter):
             return [(Aff(Base("L", 0, (1 << 30) - 1, None), 1, 0), None)]
         if name == "starts_with":
             return [(Opaque("starts_with"), None)]
+        if name == "branch" and args and isinstance(args[0], tuple) and args[0][0] == "variant":
+            # `?` on an Option: Some(v) -> ControlFlow::Continue(v) (variant 0), None -> ControlFlow::Break (variant 1)
+            return [(("variant", 0, args[0][2]), None)] if args[0][1] == 1 else [(("variant", 1, None), None)]
+        if name == "from_residual":
+            return [(("variant", 0, None), None)]      # Option::None
         return [(Opaque("ret:%s" % name), None)]
     return model
+
+
+def slot_view(crate, b, parse_bounds):
+    """the body with every helper of slot.rs inlined (except the parse helpers, which are modelled by their verified
+    contract): extracting a branch of a constructor into a private function does not change what is interpreted"""
+    pol = {x.id for x in crate.fns() if (x.file or "").endswith(SLOTF) and x.kind != "Closure" and x.id not in parse_bounds
+           and not any(c.callee and c.callee.target == x.id for c in x.all_calls())}
+    return mir.inline_view(crate, b, depth=4, policy=pol - {b.id})
 
 
 def run_closure(crate, cl, parse_bounds, F):
@@ -162,7 +175,7 @@ def o2(ctx):
         v = rv["ops"][rv["fields"].index("fresh_idx")]
         ctx.check(v.get("int") is not None and int(v["int"]) % 4 == 1, "O3:init", "fresh_idx starts at %s = 1 mod 4" % v.get("int"), "fresh_idx is initialised to %s, not 1 mod 4" % v.get("text"))
     # --- numeric
-    num = body(crate, "slot::Slot::numeric")
+    num = slot_view(crate, body(crate, "slot::Slot::numeric"), parse_bounds)
     U = Base("u", 0, B30 - 1, None)
     paths = Exec(num, make_model(crate, parse_bounds, [0]), param_vals={1: Aff(U, 1, 0)}).run()
     sites = 0
@@ -175,7 +188,7 @@ def o2(ctx):
                 ctx.check(isinstance(v, Aff) and v.base is U and v.a == 4 and v.c == 0, "O7:numeric-encoding", "numeric encoding is 4*u", "numeric encoding is %r" % (v,), where_of(num))
             check_overflow(ctx, ev, "numeric", num)
     # --- fresh
-    fr = closure_of(crate, "slot::Slot::fresh")
+    fr = slot_view(crate, closure_of(crate, "slot::Slot::fresh"), parse_bounds)
     for p in run_closure(crate, fr, parse_bounds, F):
         stores = [e for e in p.events if e[0] == "store" and e[1] == "fresh_idx"]
         ctx.check(len(stores) == 1, "O4:fresh-stores", "fresh() stores the counter exactly once", "fresh() stores the counter %d times on a path" % len(stores), where_of(fr))
@@ -194,7 +207,7 @@ def o2(ctx):
             ctx.check(isinstance(v, Aff) and isinstance(ret, Aff) and cond_implies_gt(p.conds, v, ret), "O4:fresh-increases", "counter after fresh() (%r) > returned slot (%r)" % (v, ret),
                       "after fresh() the counter %r is not above the returned slot %r: the next fresh() can return the same slot" % (v, ret), where_of(fr))
     # --- named: outer function (numeric branch) and the closure
-    nm = body(crate, "slot::Slot::named")
+    nm = slot_view(crate, body(crate, "slot::Slot::named"), parse_bounds)
     for p in Exec(nm, make_model(crate, parse_bounds, [0])).run():
         for ev in p.events:
             if ev[0] == "agg" and ev[1] == "slot::Slot::Slot":
@@ -203,7 +216,7 @@ def o2(ctx):
                 ctx.check(isinstance(v, Aff) and v.mod4() == 0 and v.a == 4 and v.c == 0, "O2:named-numeric", "named(<canonical number n>) = 4n (same as numeric(n))",
                           "the numeric branch of Slot::named builds %r" % (v,), where_of(nm))
             check_overflow(ctx, ev, "named-numeric", nm)
-    ncl = closure_of(crate, "slot::Slot::named")
+    ncl = slot_view(crate, closure_of(crate, "slot::Slot::named"), parse_bounds)
     paths = run_closure(crate, ncl, parse_bounds, F)
     kinds = {"f": 0, "hit": 0, "new": 0}
     for p in paths:
@@ -373,7 +386,9 @@ def o7(ctx):
         for c in t.calls:
             if c.callee and c.callee.target == "slot::Slot::named":
                 conds = C.conditions_at(t, c.bb)
-                okn = any(cond[0] == "true" and "starts_with" in role_str(cond[1]) and "'$'" in role_str(cond[1]) for e, cond in conds)
+                okn = okn or any(cond[0] == "true" and ("starts_with" in role_str(cond[1]) or "strip_prefix" in role_str(cond[1])) and "'$'" in role_str(cond[1]) for e, cond in conds)
+                arg = role_str(t.role_of_operand(c.args[0]), 14)
+                okn = okn or ("strip_prefix" in arg and "'$'" in arg)
         ctx.check(okn, "tokenizer-strips-dollar", "the tokenizer passes the text after `$` to Slot::named", "the tokenizer does not call Slot::named under starts_with('$')", where_of(t))
 
 
